@@ -291,6 +291,18 @@ where
             )
             .is_ok() // PJG: convert to bool for consistency with qdldl.   Should really return Result here and elsewhere
     }
+
+    #[cfg(feature = "verif")]
+    fn verif_engine_snapshot(&self) -> crate::verif::EngineSnapshot<T> {
+        let nzval = &self.perm_kkt.nzval;
+        crate::verif::EngineSnapshot {
+            name: "faer".to_string(),
+            values: self.perm_map.iter().map(|&i| nzval[i]).collect(),
+            D: None,
+            perm: Some(self.perm.clone()),
+            regularize_count: None,
+        }
+    }
 }
 
 // ---------------------------------------------------------------------
